@@ -323,6 +323,21 @@ PROPS["C11"]["level_note"] = "Level stays model_checking: 'exactly once' (call c
 _more("C15", "enum", "derive-order-enum", "harnesses", ["order_maps_3"])
 PROPS["C15"]["text"] += " std map targets (BTreeMap / HashMap<u8, Leaf>): three entries with distinct keys (parsable and unparsable) in all six orders, natively: same map, same multiset of reports."
 
+# C06: set / map contents under contract (relative to std's own requirement on the key type)
+for _p in ("C06",):
+    PROPS[_p]["text"] += " Set and map CONTENTS (unbounded, Verus unit impls): for HashSet / BTreeSet the result is exactly the set of the deserialized elements (every member represents some payload element and every payload element is represented by a member); for HashMap / BTreeMap the keys are exactly the parsed keys of the entries and the value under a key represents the payload value of an entry with that parsed key -- each relative to vstd's model condition on the key type (obeys_key_model / key_obeys_cmp_spec: Hash / Eq / Ord behave as std requires) and to FromStr being a function of the string. Tuples: the elements are read only from a sequence of exactly the arity (labelled assertion before the first element is read). Also under contract: PhantomData<T> (reads nothing, never reports) and `Sequence for Vec<T>` (a Vec used as a value source enumerates its elements in order); `Sequence for [T; N]` is not (core::array::IntoIter has no vstd specification)."
+    PROPS[_p]["level_note"] = "Vec / array / tuple / Option / Box / set / map unbounded (sets and maps relative to the stated key-model condition); the bounded container harnesses remain as cross-checks and counterexample finders."
+PROPS["C16"]["text"] = PROPS["C16"]["text"].replace("41 hand-written derive inputs (5 valid controls, 36 poisoned", "68 hand-written derive inputs (8 valid controls, 60 poisoned")
+
+# bounded companions of the Verus units cs / json_target, tagged enum with function attributes
+for _p in ("C01", "C02", "C03", "C04", "C06", "C12"):
+    _more(_p, "enum", "containers-enum", "harnesses", ["cont_cs", "cont_jvalue"]) if any(u.get("group") == "containers-enum" for u in PROPS[_p]["units"]) else None
+_more("C11", "enum", "derive-fns-enum", "harnesses", ["derive_tagfn_3"])
+_more("C12", "enum", "derive-total-enum", "harnesses", ["derive_tagfn_3"])
+for _p in ("C01", "C02", "C03", "C04"):
+    _more(_p, "enum", "derive-core-enum", "harnesses", ["derive_tagfn_3"])
+PROPS["C13"]["units"] = PROPS["C13"]["units"] + [{"kind": "enum", "group": "json-target-enum", "harnesses": ["cont_jvalue"], "bounds": "13 122 arena payloads: a sequence or map of two members, each a scalar (incl. NaN / infinity) or a nested one-element sequence / map"}]
+
 # C13: container part, bounded
 PROPS["C13"]["units"] = PROPS["C13"]["units"] + [{"kind": "enum", "group": "json-documents", "harnesses": ["json_documents"],
     "bounds": "797 603 documents: nesting depth <= 2, arrays / objects of width <= 2 (keys `k`, `l l`), scalars from the statement's boundary set (0, 7, 2^53+1, u64::MAX, -1, -2^53-1, i64::MIN, 1.5, -0.0, a subnormal, 1e300, 2^64 as float, two strings with escapes / non-ASCII, null, booleans)"}]
